@@ -620,6 +620,7 @@ func init() {
 			items := []Item{
 				{Name: "int-chains", MaxDevs: -1, Run: c17NumberScenario},
 				{Name: "shared-and-coercer", MaxDevs: -1, Run: c17SharedScenario},
+				{Name: "modifiers-after-use", MaxDevs: -1, Run: c17ReuseScenario},
 			}
 			for i, c := range c17StringCalls() {
 				items = append(items, Item{Name: "string-chains/first=" + c.name, MaxDevs: -1, Run: c17StringScenario(c17Len(tier), i)})
